@@ -206,6 +206,18 @@ theorem C19_cex_clone_alias :
     ∧ cloneOnto (.lst [.chr true (a!"x")]) [] [] = some .unk := ⟨rfl, rfl⟩
 
 
+/-- the repair proposed for F32 (clone into a scratch object first): the target ends up equal to the source as it was
+    before the call — also when the source is a member of the target or contains it — and cloning an object onto itself
+    changes nothing -/
+theorem C19_clone_onto_repaired (root : V) (sp dp : List Step) (s r : V) (hs : resolve root sp = some s)
+    (h : cloneOntoRepaired root sp dp = some r) : (sp = dp → r = root) ∧ (sp ≠ dp → resolve r dp = some s) :=
+  cloneOntoRepaired_spec root sp dp s r hs h
+
+/-- … on the two inputs on which the code as written fails (C19_cex_clone_alias) -/
+theorem C19_clone_onto_repaired_examples :
+    cloneOntoRepaired (.lst [.lst [.chr true (a!"x")]]) [.idx 0, .idx 0] [.idx 0] = some (.lst [.chr true (a!"x")])
+    ∧ cloneOntoRepaired (.lst [.chr true (a!"x")]) [] [] = some (.lst [.chr true (a!"x")]) := ⟨rfl, rfl⟩
+
 /-! ## Heap level (Model/Heap): ownership, disjointness of clones, exactly-once release
 
   `Heap.Rep h hv v F`: in heap `h` the value fields `hv` represent the pure value `v` and own exactly the blocks `F`.
